@@ -193,6 +193,12 @@ def lib_case(rng):
         c = gen_case(rng)
     c["layout"]["root/ldout"] = {"link": "../outside"}
     roots = rng.choice(ROOT_SEQS)
+    if rng.random() < 0.4:
+        # sequences that only narrow: evaluation inside the final root must work as usual
+        roots = rng.choice([["."], ["sub"], [".", "sub"], [".", "{W}/root/sub"], [".", "."], ["sub", "sub"], [".", "./sub/../sub"]])
+        while c["meta"]["kind"] not in ("benign", "benign-link-inside", "root-sub"):
+            c = gen_case(rng)
+        c["layout"]["root/ldout"] = {"link": "../outside"}
     # after a second SetRoot the interesting inputs are the decoys and the files of the first root
     inputs = [rng.choice(["a.b.yaml", "sub/c.yaml", "../outside/decoy.yaml", "../secret.yaml", "{W}/secret.yaml", "{W}/outside/decoy.yaml",
                           "../root-secrets/decoy.yaml", "ldout/decoy.yaml", "a.yaml"])]
